@@ -1,6 +1,7 @@
 package main
 
 import (
+	"os"
 	"fmt"
 	"go/token"
 	"go/types"
@@ -21,6 +22,7 @@ func init() {
 			"R5 state change and event distribution are atomic: every Distribute call of a mutex-protected collection is made while its mu is held (events are enqueued in the order of the state writes)",
 			"R7 in every function that builds the event batch it distributes, one pass of the loop that handles a key appends at most one event to that batch (no path appends twice in the same iteration): a second append is a duplicate add/delete for the subscribers",
 			"R8 no operation of a mutex-protected collection reads mutable state in one critical section, releases the lock, and writes state computed from it in a second one (events applied in between are lost from what is published)",
+			"R9 sibling rule: every method of the join family that walks the joined collections / indexers and hands their objects on resolves overlapping keys (first hit wins, a seen-set, or a look-up in the higher-priority collections) unless it is on the unchecked-overlap path: List, GetKey and index Lookup must agree",
 			"R6 a secondary (dependency) event is matched against both the old and the new object when deciding which inputs to recompute",
 		},
 		NotDecided: "event-stream consistency in general, output diffing, keys moving between parents, join/merge semantics (a duplicate delete in mergejoin was reported by a seeding agent and is noted in DESIGN.md as untriaged); R1 of the design (untracked reads inside transformations) is not armed",
@@ -32,6 +34,7 @@ func init() {
 			{"C16-R6", "secondary events consider old and new object", c16r6},
 			{"C16-R7", "one output event per key and pass", c16r7},
 			{"C16-R8", "state is not read in one critical section and published in a later one", c16r8},
+			{"C16-R9", "every read path of a join resolves overlapping keys", c16r9},
 		},
 	})
 }
@@ -623,4 +626,108 @@ func c16r8(c *Ctx) {
 	}
 	c.Check("methods of mutex-protected krt types examined", token.NoPos, n >= 20, "fewer locking methods than confirmed by hand")
 	c.Floor(20)
+}
+
+
+// C16-R9: a (checked) join shows, for a key held by several joined collections, the object of the first collection only.
+// Every method of join / joinIndexer that loops over the joined collections (or their indexers) and returns or appends
+// what they hold therefore resolves overlaps inside that loop: it returns at the first hit, or consults a seen-set
+// (Contains / InsertContains), or asks the higher-priority collections (getFromColIdx); a loop under the
+// uncheckedOverlap edge is exempt. A read path without any of these (an index Lookup that simply concatenates) returns
+// a key twice, or the shadowed lower-priority copy, and disagrees with List().
+func c16r9(c *Ctx) {
+	p := c.P
+	n := 0
+	chosen := map[*ssa.Function]bool{}
+	for _, fn := range p.AllFuncs {
+		if os.Getenv("VERIF_DEBUG_R9") != "" && strings.Contains(fn.String(), "joinIndexer") {
+			fmt.Println("R9 DEBUG", fn.String(), "|", fn.Synthetic, "|", funcPkgPath(fn), fn.Parent() != nil)
+		}
+		if funcPkgPath(fn) != istioMod+"/"+pkgKrt || strings.HasSuffix(p.Fset.Position(fn.Pos()).Filename, "_test.go") || fn.Parent() != nil {
+			continue
+		}
+		if fn.Synthetic != "" && !strings.HasPrefix(fn.Synthetic, "instance of") {
+			continue
+		}
+		if o := fn.Origin(); o != nil && o != fn {
+			if chosen[o] {
+				continue
+			}
+			chosen[o] = true
+		}
+		if fn.Signature.Recv() == nil {
+			continue
+		}
+		rn, _ := derefNamed(fn.Signature.Recv().Type())
+		if rn == nil || (rn.Obj().Name() != "join" && rn.Obj().Name() != "joinIndexer") {
+			continue
+		}
+		// read paths only: the method returns objects (a slice or a pointer), not registrations / dumps
+		res := fn.Signature.Results()
+		if res.Len() != 1 {
+			continue
+		}
+		switch res.At(0).Type().Underlying().(type) {
+		case *types.Slice, *types.Pointer:
+		default:
+			continue
+		}
+		unchecked := edgesWhere(fn, func(v ssa.Value) bool {
+			fv := fieldOfLoad(v)
+			return fv != nil && fv.Name() == "uncheckedOverlap"
+		}, true)
+		for _, l := range rangeLoops(fn) {
+			if l.Over == nil || l.Body == nil {
+				continue
+			}
+			fv := fieldOfLoad(l.Over)
+			if fv == nil || (fv.Name() != "collections" && fv.Name() != "indexers") {
+				continue
+			}
+			if underEdges(fn, l.Body, unchecked) {
+				continue
+			}
+			// does the loop hand objects on?
+			hands := false
+			resolves := false
+			var scan func(f *ssa.Function, inBody func(*ssa.BasicBlock) bool)
+			scan = func(f *ssa.Function, inBody func(*ssa.BasicBlock) bool) {
+				for _, b := range f.Blocks {
+					if !inBody(b) {
+						continue
+					}
+					for _, ins := range b.Instrs {
+						if isAppendCall(ins) {
+							hands = true
+						}
+						if r, ok := ins.(*ssa.Return); ok && f == fn && len(r.Results) == 1 {
+							if k, isC := r.Results[0].(*ssa.Const); !isC || !k.IsNil() {
+								hands, resolves = true, true // first hit wins
+							}
+						}
+						if o := calleeObj(ins); o != nil {
+							switch o.Name() {
+							case "InsertContains", "Contains", "getFromColIdx":
+								resolves = true
+							}
+						}
+						if mk, ok := ins.(*ssa.MakeClosure); ok {
+							if lit, ok := mk.Fn.(*ssa.Function); ok {
+								scan(lit, func(*ssa.BasicBlock) bool { return true })
+							}
+						}
+					}
+				}
+			}
+			scan(fn, func(b *ssa.BasicBlock) bool { return l.Body.Dominates(b) })
+			if !hands {
+				continue
+			}
+			n++
+			c.Check("join read path resolves overlapping keys: "+stableFnName(fn), l.Body.Instrs[0].Pos(), resolves,
+				"this method walks the joined "+fv.Name()+" and hands on what each of them holds without resolving keys held by more than one of them (List and GetKey keep the first collection's object): for an overlapping key the result contains the object twice, or the shadowed lower-priority copy, so index lookups and filtered fetches disagree with List()")
+		}
+	}
+	c.Check("join read paths found", token.NoPos, n >= 3, "fewer read paths over the joined collections than confirmed by hand (List, GetKey, index Lookup)")
+	c.Floor(4)
 }
